@@ -19,7 +19,7 @@ from vf import fgen, genmodels, layout, observe  # noqa: E402
 
 PID = "C01"
 
-IGNORE_FIELDS = ("doc",)  # documentation attachment is C03's subject
+IGNORE_FIELDS = ("doc", "calls")  # documentation is C03's subject, calls C08's  # documentation attachment is C03's subject
 
 
 def write_project(root, files, style, lay: layout.Layout, ext="f90"):
